@@ -15,6 +15,10 @@ which is discharged for the driver's instance in `solve_instance_contract`.
 import Model.NNLS
 import Proofs.NNLS
 import Proofs.NNLSLoop
+import Proofs.NNLSRecon
+import Mathlib.Algebra.Order.Field.Rat
+import Mathlib.Tactic.NormNum
+import Mathlib.Tactic.IntervalCases
 
 open Model
 
@@ -197,5 +201,242 @@ theorem c_reconstruction_unconstrained (solve : List (List α) → List α → O
   exact c_unconstrained_solves solve hc atol rtol check ranges A b s h
 
 end c
+
+/-! ### (b') and (d): the positive-only entry points, forced zeros -/
+
+section d
+variable {α : Type} [Field α] [LinearOrder α] [IsStrictOrderedRing α]
+
+/-- (b') `reconstruction_positive_only_from`, with `positive_only_uses_p_initial` on or off: a main-exit
+    result satisfies the KKT conditions of the system it was given (slack `eps·n`, the code's tolerance). -/
+theorem b_reconPosOnly_main_exit_kkt (solve : List (List α) → List α → Option (List α))
+    (hc : Spec.SolveContract solve) (n : ℕ) (A : List (List α)) (b : List α) (hA : A.length = n)
+    (hrow : ∀ r, r ∈ A → r.length = n) (hb : b.length = n) (eps : α) (heps : 0 ≤ eps) (maxIter : ℕ)
+    (usePInit : Bool) (d : List α) (lc lc2 : ℕ)
+    (h : Impl.reconPosOnly solve eps maxIter usePInit A b = .ok d .main lc lc2) :
+    d.length = n ∧ Spec.IsKKT A b d (eps * (n : α)) := by
+  have hcert := reconPosOnly_main_certified solve hc n A b hA hrow hb eps heps maxIter usePInit d lc lc2 h
+  exact ⟨hcert.1, Certified.isKKT n A b _ (mul_nonneg heps (Nat.cast_nonneg n)) hb d hcert⟩
+
+/-- (d) `AbstractInversion.reconstruction` with the positive-only solver and
+    `force_edge_pixels_to_zeros`: the result is the embedding (`solutions = zeros(n);
+    solutions[values_to_solve] = …`) of the positive-only solver's result `y` for the reduced system
+    (rows/columns of the forced indices removed); every forced parameter is exactly zero; and when `y`
+    left the solver through its main exit, the kept entries of `s` are `y` and `y` satisfies the KKT
+    conditions of the reduced system. -/
+theorem d_forced_zeros (solve : List (List α) → List α → Option (List α))
+    (hc : Spec.SolveContract solve) (eps atol rtol : α) (heps : 0 ≤ eps) (maxIter : ℕ)
+    (usePInit forceEdgeImage check : Bool) (edge zero : List ℕ) (ranges : List (ℕ × ℕ))
+    (n : ℕ) (A : List (List α)) (b s : List α) (hA : A.length = n)
+    (h : Impl.reconstruction solve eps atol rtol maxIter true usePInit true forceEdgeImage check
+      edge zero ranges A b = .ok s) :
+    let ids := Impl.idsZeros forceEdgeImage edge zero
+    let keep := (List.range n).filter fun i => !(ids.contains i)
+    ∃ y ex lc lc2,
+      Impl.reconPosOnly solve eps maxIter usePInit (subMat A keep) (gather b keep) = .ok y ex lc lc2
+      ∧ s = scatter (zeros n) keep y
+      ∧ s.length = n
+      ∧ (∀ i, i < n → i ∈ ids → vget s i = 0)
+      ∧ (ex = .main →
+          y.length = keep.length
+          ∧ (∀ k (hk : k < keep.length), vget s keep[k] = vget y k)
+          ∧ Spec.IsKKT (subMat A keep) (gather b keep) y (eps * (keep.length : α))) := by
+  intro ids keep
+  unfold Impl.reconstruction at h
+  simp only [if_true, hA] at h
+  split at h
+  · simp at h
+  · rename_i y ex lc lc2 hy
+    cases h
+    refine ⟨y, ex, lc, lc2, hy, rfl, by rw [scatter_length, zeros_length], ?_, ?_⟩
+    · intro i hi hmem
+      have hnk : i ∉ keep := by
+        intro hk
+        have := (List.mem_filter.mp hk).2
+        have hc' : ids.contains i = true := List.contains_iff_mem.mpr hmem
+        rw [hc'] at this
+        simp at this
+      rw [vget_scatter_not_mem _ _ _ _ hnk, vget_zeros]
+    · intro hex
+      subst hex
+      obtain ⟨hyl, hk⟩ := b_reconPosOnly_main_exit_kkt solve hc keep.length (subMat A keep) (gather b keep)
+        (subMat_length A keep) (subMat_row_length A keep) (gather_length b keep) eps heps maxIter usePInit
+        y lc lc2 hy
+      refine ⟨hyl, fun k hk' => ?_, hk⟩
+      exact vget_scatter_mem (zeros n) keep y (List.nodup_range.filter _)
+        (fun i hi => by rw [zeros_length]; exact List.mem_range.mp (List.mem_filter.mp hi).1) hyl k hk'
+
+/-- (d') without `force_edge_pixels_to_zeros` the positive-only reconstruction is the solver's result for
+    the full system. -/
+theorem d_no_forced_zeros (solve : List (List α) → List α → Option (List α))
+    (hc : Spec.SolveContract solve) (eps atol rtol : α) (heps : 0 ≤ eps) (maxIter : ℕ)
+    (usePInit forceEdgeImage check : Bool) (edge zero : List ℕ) (ranges : List (ℕ × ℕ))
+    (n : ℕ) (A : List (List α)) (b s : List α) (hA : A.length = n)
+    (hrow : ∀ r, r ∈ A → r.length = n) (hb : b.length = n)
+    (h : Impl.reconstruction solve eps atol rtol maxIter true usePInit false forceEdgeImage check
+      edge zero ranges A b = .ok s) :
+    ∃ ex lc lc2, Impl.reconPosOnly solve eps maxIter usePInit A b = .ok s ex lc lc2
+      ∧ (ex = .main → s.length = n ∧ Spec.IsKKT A b s (eps * (n : α))) := by
+  unfold Impl.reconstruction at h
+  simp only [if_true, Bool.false_eq_true, if_false] at h
+  split at h
+  · simp at h
+  · rename_i y ex lc lc2 hy
+    cases h
+    refine ⟨ex, lc, lc2, hy, fun hex => ?_⟩
+    subst hex
+    exact b_reconPosOnly_main_exit_kkt solve hc n A b hA hrow hb eps heps maxIter usePInit s lc lc2 hy
+
+end d
+
+/-! ### (e) mapped reconstructed data -/
+
+section e
+variable {α : Type} [Field α] [LinearOrder α] [IsStrictOrderedRing α]
+
+/-- (e1) the data returned for each linear object is its blurred mapping matrix times its slice of the
+    reconstruction (`mapped_reconstructed_data_dict` of the mapping formalism: slices taken consecutively
+    by `source_quantity_dict_from`, the double loop of `mapped_reconstructed_data_via_mapping_matrix_from`). -/
+theorem e_mapped_data_each (m : ℕ) (hm : 0 < m) (Bs : List (List (List α))) (ss : List (List α))
+    (hsh : ShapesOK m Bs ss) :
+    Impl.mappedDataDict Bs ss.flatten = List.zipWith matVec Bs ss :=
+  mappedDataDict_eq m hm Bs ss hsh
+
+/-- (e2) `mapped_reconstructed_data = sum(dict.values())`: entry `i` of the total is the sum over the
+    objects of entry `i` of their mapped data, which is entry `i` of `B·s` for the full blurred mapping
+    matrix `B = hstack(B_obj)` and the full reconstruction `s = concat(s_obj)`. -/
+theorem e_mapped_data_sum (m : ℕ) (hm : 0 < m) (Bs : List (List (List α))) (ss : List (List α))
+    (hsh : ShapesOK m Bs ss) :
+    (Impl.mappedData m (Impl.mappedDataDict Bs ss.flatten)).length = m
+    ∧ ∀ i, i < m →
+        vget (Impl.mappedData m (Impl.mappedDataDict Bs ss.flatten)) i
+            = (List.zipWith (fun B sk => vget (matVec B sk) i) Bs ss).sum
+        ∧ vget (Impl.mappedData m (Impl.mappedDataDict Bs ss.flatten)) i
+            = vget (matVec (Impl.hstack m Bs) ss.flatten) i := by
+  rw [mappedDataDict_eq m hm Bs ss hsh]
+  have himgs : ∀ v, v ∈ List.zipWith matVec Bs ss → v.length = m := by
+    intro v hv
+    induction hsh with
+    | nil => simp at hv
+    | @cons B sk Bs' ss' hd _ ih =>
+      simp only [List.zipWith_cons_cons, List.mem_cons] at hv
+      rcases hv with rfl | hv
+      · rw [matVec_length, hd.1]
+      · exact ih hv
+  obtain ⟨h1, h2⟩ := mappedData_fold m (List.zipWith matVec Bs ss) (List.replicate m 0) (by simp) himgs
+  refine ⟨h1, fun i hi => ?_⟩
+  have hsum : (List.map (fun v => vget v i) (List.zipWith matVec Bs ss)).sum
+      = (List.zipWith (fun B sk => vget (matVec B sk) i) Bs ss).sum := by
+    rw [List.map_zipWith]
+  have hzero : vget (List.replicate m (0 : α)) i = 0 := vget_zeros m i
+  have htot : vget (Impl.mappedData m (List.zipWith matVec Bs ss)) i
+      = (List.zipWith (fun B sk => vget (matVec B sk) i) Bs ss).sum := by
+    unfold Impl.mappedData
+    rw [h2 i hi, hzero, zero_add, hsum]
+  exact ⟨htot, by rw [htot, hstack_row_dot m Bs ss hsh i hi]⟩
+
+end e
+
+/-! ### the defect D4, formally: the warm-start prologue as it was before the repair -/
+
+/-- the witness system of harness/corpus/C05/d4_warm_start.json -/
+def A3 : List (List ℚ) := [[4, 0, -2], [0, 3, 1], [-2, 1, 3]]
+def b3 : List ℚ := [-1, -3, 1]
+
+/-- D4: with the warm start of the production path (`P_initial` = sign pattern `[T, F, T]` of the
+    unconstrained solution `(1/5, −13/10, 9/10)`) the prologue as written before fixes/D4 makes the
+    solver return `[0, 0, 1/4]` through its `no_update` break, which is not a KKT point (the optimum is
+    `[0, 0, 1/3]`). Replayed on the real code by the corpus witness. -/
+theorem d4_legacy_warm_start_not_optimal :
+    (match Impl.fnnlsLegacy checkedSolve A3 b3 (1 / 1000000000000000) 10000 [0, 2] with
+      | .ok d _ _ _ => d == [0, 0, 1 / 4] && !(Spec.isKKTb A3 b3 d (1 / 1000000000000000))
+      | .err _ => false) = true := by decide +kernel
+
+/-! ### non-vacuity: the hypotheses are met by a concrete non-trivial instance -/
+
+/-- the repaired solver, same warm start, same system: main exit with the optimum, exactly -/
+example : (match Impl.fnnls checkedSolve A3 b3 (1 / 1000000000000000) 10000 (some [0, 2]) with
+    | .ok d .main _ _ => d == [0, 0, 1 / 3] && Spec.isKKTb A3 b3 d 0
+    | _ => false) = true := by decide +kernel
+
+/-- cold start -/
+example : (match Impl.fnnls checkedSolve A3 b3 (1 / 1000000000000000) 10000 none with
+    | .ok d .main _ _ => d == [0, 0, 1 / 3]
+    | _ => false) = true := by decide +kernel
+
+/-- a warm start that is accepted (passive-set solution strictly positive) and continued -/
+example : (match Impl.fnnls checkedSolve A3 [2, 3, 1] (1 / 1000000000000000) 10000 (some [1]) with
+    | .ok d .main _ _ => Spec.isKKTb A3 [2, 3, 1] d 0 && d.all (fun v => decide (0 < v))
+    | _ => false) = true := by decide +kernel
+
+/-- forced zeros through `Impl.reconstruction` (parameter 1 forced to zero) and the unconstrained path -/
+example : (match Impl.reconstruction checkedSolve (1 / 1000000000000000) (1 / 100000000) (1 / 100000)
+      10000 true true true false true [1] [] [] A3 [2, 3, 1] with
+    | .ok s => s == [1, 0, 1] | .error _ => false) = true := by decide +kernel
+
+example : (match Impl.reconstruction checkedSolve (1 / 1000000000000000) (1 / 100000000) (1 / 100000)
+      10000 false true true false true [] [] [(0, 3)] A3 b3 with
+    | .ok s => s == [1 / 5, -13 / 10, 9 / 10] | .error _ => false) = true := by decide +kernel
+
+/-- mapped data of two objects (2 data points; 2 + 1 parameters) -/
+example : ShapesOK (α := ℚ) 2 [[[1, 2], [3, 4]], [[1], [1]]] [[1, 1], [5]] := by
+  refine List.Forall₂.cons ⟨rfl, ?_⟩ (List.Forall₂.cons ⟨rfl, ?_⟩ List.Forall₂.nil)
+  · intro r hr; simp at hr; rcases hr with rfl | rfl <;> rfl
+  · intro r hr; simp at hr; rcases hr with rfl; rfl
+
+example : Impl.mappedData 2 (Impl.mappedDataDict [[[1, 2], [3, 4]], [[1], [1]]] ([1, 1, 5] : List ℚ))
+    = [8, 12] := by decide +kernel
+
+/-- `A3` is symmetric and positive definite, `[0, 0, 1/3]` carries the exact KKT certificate: the
+    hypotheses of clause (a) hold together -/
+example : Spec.IsSymm 3 A3 := by
+  refine ⟨rfl, ?_, ?_⟩
+  · intro r hr; simp [A3] at hr; rcases hr with rfl | rfl | rfl <;> rfl
+  · intro i j hi hj
+    interval_cases i <;> interval_cases j <;> rfl
+
+example : Spec.IsPD 3 A3 := by
+  intro v hv hne
+  match v, hv with
+  | [x, y, z], _ =>
+    have hne' : x ≠ 0 ∨ y ≠ 0 ∨ z ≠ 0 := by
+      obtain ⟨i, hi⟩ := hne
+      match i with
+      | 0 => left; simpa [vget] using hi
+      | 1 => right; left; simpa [vget] using hi
+      | 2 => right; right; simpa [vget] using hi
+      | (k+3) => simp [vget] at hi
+    simp only [A3, matVec, dot, List.map]
+    have key : 4 * x * x + 3 * y * y + 3 * z * z - 4 * x * z + 2 * y * z
+        = (2 * x - z) ^ 2 + 2 * (z + y / 2) ^ 2 + (5 / 2) * y ^ 2 := by ring
+    have : 0 < (2 * x - z) ^ 2 + 2 * (z + y / 2) ^ 2 + (5 / 2) * y ^ 2 := by
+      rcases hne' with h | h | h
+      · by_contra hle
+        have h1 := sq_nonneg (2 * x - z); have h2 := sq_nonneg (z + y / 2); have h3 := sq_nonneg y
+        have e1 : (2 * x - z) ^ 2 = 0 := by nlinarith
+        have e2 : (z + y / 2) ^ 2 = 0 := by nlinarith
+        have e3 : y ^ 2 = 0 := by nlinarith
+        have y0 : y = 0 := by simpa using e3
+        have z0 : z = 0 := by
+          have := pow_eq_zero_iff (n := 2) (by norm_num) |>.mp e2; rw [y0] at this; linarith
+        have x0 : x = 0 := by
+          have := pow_eq_zero_iff (n := 2) (by norm_num) |>.mp e1; rw [z0] at this; linarith
+        exact h x0
+      · have : 0 < y ^ 2 := by positivity
+        nlinarith [sq_nonneg (2 * x - z), sq_nonneg (z + y / 2)]
+      · by_contra hle
+        have h1 := sq_nonneg (2 * x - z); have h2 := sq_nonneg (z + y / 2); have h3 := sq_nonneg y
+        have e2 : (z + y / 2) ^ 2 = 0 := by nlinarith
+        have e3 : y ^ 2 = 0 := by nlinarith
+        have y0 : y = 0 := by simpa using e3
+        have z0 : z = 0 := by
+          have := pow_eq_zero_iff (n := 2) (by norm_num) |>.mp e2; rw [y0] at this; linarith
+        exact h z0
+    nlinarith [this, key]
+
+example : Spec.IsKKT A3 b3 [0, 0, 1 / 3] 0 := by
+  intro i hi
+  have hi' : i < 3 := hi
+  interval_cases i <;> simp [vget, A3, b3, matVec, dot] <;> norm_num
 
 end C05
